@@ -29,7 +29,7 @@ Qed.
 
 Lemma seeds_distinct_l : forall (Seed : Type) (spawn : nat -> Seed),
   (forall i j, spawn i = spawn j -> i = j) ->
-  forall k, k = KSeedLike \/ k = KSeedSequence ->
+  forall k, k = KSeedLike \/ k = KSeedSequence \/ k = KSeedZero ->
   forall retrain sb ns,
     let calls := ptrain_calls (pt_seed_plan k) pt_spawn_width retrain (start_index (pt_seed_plan k) sb) ns in
     Forall (fun c => exists i, pc_rng c = CSpawn i) calls /\
@@ -60,7 +60,7 @@ Lemma generators_distinct_at_use_l : forall (Seed Gen : Type) (spawn : nat -> Se
   (forall i j, spawn i = spawn j -> i = j) ->
   (forall s t, gen_of s = gen_of t -> s = t) ->
   options_rng_passthrough = true ->
-  forall k, k = KSeedLike \/ k = KSeedSequence ->
+  forall k, k = KSeedLike \/ k = KSeedSequence \/ k = KSeedZero ->
   forall retrain sb ns,
     let calls := ptrain_calls (pt_seed_plan k) pt_spawn_width retrain (start_index (pt_seed_plan k) sb) ns in
     NoDup (map (fun c => match pc_rng c with CSpawn i => Some (gen_of (spawn i)) | CSame => None end) calls).
